@@ -39,4 +39,21 @@ example : (run true [5, 6]
      (9, .gcReadMeta), (9, .gcDelete 5), (9, .gcDelete 6), (9, .gcFinish)]).map (fun s => (s.committed, s.deleted)) = some ([5], [6]) := by
   decide
 
+/-- a pre-built file queued by `append_files` as found: it exists, is old, belongs to open transaction 1 — and has NO marker -/
+def prebuiltUnmarked : Nat → Option FileSt := fun f => if f = 7 then some ⟨true, false, 1, true, false⟩ else none
+
+/-- **prebuilt_unmarked_refuted** (regression witness; `append_files` as found, repaired by c834a8f) — with the repaired
+read order: the collector protects nothing for file 7, deletes it, and transaction 1 then commits it. -/
+theorem prebuilt_unmarked_refuted :
+    (run true [7] (init prebuiltUnmarked [])
+      [(9, .gcReadMarkers), (9, .gcReadMeta), (9, .gcDelete 7), (1, .txFlip), (1, .txFinish), (9, .gcFinish)]).map
+      (fun s => (s.deleted, s.tx 1)) = some ([7], .finished) := by
+  decide
+
+/-- the same file WITH its marker (what `append_files` registers now) survives the same run -/
+example : (run true [7] (init (fun f => if f = 7 then some ⟨true, true, 1, true, false⟩ else none) [])
+      [(9, .gcReadMarkers), (9, .gcReadMeta), (9, .gcDelete 7), (1, .txFlip), (1, .txUnmark 7), (1, .txFinish), (9, .gcFinish)]).map
+      (fun s => (s.committed, s.deleted)) = some ([7], []) := by
+  decide
+
 end DSV.GcRace
